@@ -15,7 +15,7 @@ MANIFEST = dict(
 
 def configs(tier):
     q = tier == "quick"
-    n = 2500 if q else 40000
+    n = 2000 if q else 40000
     mc = 5 if q else 6
     return [
         dict(name="sock+pipeR read/cancel/close", sample=n,
